@@ -185,6 +185,17 @@ class Monitor:
             self.check_defaults(ctx, w.cfg, self.spec, "", hist, None, skip=set(init))
             import cincoconfig as cc
             for k in init:
+                if k == "undeclared_kw":
+                    if not self.spec.get("dynamic"):
+                        self.bad(ctx, "ctor-unknown-keyword-accepted", "the constructor accepted a keyword the (non-dynamic) schema does not declare", hist, None)
+                        continue
+                    try:
+                        ok = getattr(w.cfg, k) == 5 and cc.is_value_defined(w.cfg, k)
+                    except Exception:  # noqa
+                        ok = False
+                    if not ok:
+                        self.bad(ctx, "ctor-dynamic-keyword-lost", "constructor keyword %s=5 on a dynamic schema is not held as a user-defined value" % k, hist, None)
+                    continue
                 if not cc.is_value_defined(w.cfg, k):
                     self.bad(ctx, "ctor-keyword-not-defined", "constructor keyword %s does not count as user-defined" % k, hist, None)
                 if init[k] is None and getattr(w.cfg, k) is not None:
